@@ -90,36 +90,66 @@ fn cover_strfns() {
 // ---- whole closures on concrete strings (bounded): the index arithmetic
 // above says nothing about how `len` is obtained, how the offsets are
 // applied, or which quotes the result gets.  Here the complete bodies of
-// string.slice / insert / index / length are extracted (argument fetches
-// replaced by parameters) and run on a concrete non-ASCII string with
-// symbolic indices in -5..=5. ----
+// string.slice / insert / index / length are extracted and run on concrete
+// strings.  Listed (regex) substitutions, for the argument fetches only:
+// `s.get[::<T>](name!(x))?` -> `conv[::<T>](x_arg.clone())?`, i.e. the real
+// `TryFrom<Value>` conversion to whatever type the closure asks for, applied
+// to a harness-provided css::Value; `s.get_map(name!(x),
+// check::unitless_int)?` -> the i64 parameter `x_arg` (the real check goes
+// through error formatting, which CBMC cannot finish). ----
 use crate::css::CssString;
+use crate::sass::CallError;
 use crate::value::Quotes;
 
+fn conv<T>(v: Value) -> Result<T, CallError>
+where
+    T: TryFrom<Value>,
+{
+    T::try_from(v).map_err(|_| CallError::msg("conversion failed"))
+}
+fn lit(text: &str, q: Quotes) -> Value {
+    Value::Literal(CssString::new(String::from(text), q))
+}
+
 //@range file=rsass/src/sass/functions/string.rs fn=create_module after="def!(f, slice(string, start_at, end_at = b\"-1\"), |s| {" until="\n    });"
-//@  header: fn snippet_slice(string_arg: CssString, start_arg: i64, end_arg: i64) -> Result<Value, crate::sass::CallError>
-//@  subst: s.get(name!(string))? => string_arg
-//@  subst: s.get_map(name!(start_at), check::unitless_int)? => start_arg
-//@  subst: s.get_map(name!(end_at), check::unitless_int)? => end_arg
+//@  header: fn snippet_slice_body(string_arg: Value, start_at_arg: i64, end_at_arg: i64) -> Result<Value, CallError>
+//@  resubst: s\.get::<(\w+)>\(name!\((\w+)\)\)\? => conv::<\1>(\2_arg.clone())?
+//@  resubst: s\.get\(name!\((\w+)\)\)\? => conv(\1_arg.clone())?
+//@  resubst: s\.get_map\(name!\((\w+)\), check::unitless_int\)\? => \1_arg
 //@end
 
 //@range file=rsass/src/sass/functions/string.rs fn=create_module after="def!(f, insert(string, insert, index), |s| {" until="\n    });"
-//@  header: fn snippet_insert(string_arg: CssString, insert_arg: String, index_arg: i64) -> Result<Value, crate::sass::CallError>
-//@  subst: s.get(name!(string))? => string_arg
-//@  subst: s.get(name!(insert))? => insert_arg
-//@  subst: s.get_map(name!(index), check::unitless_int)? => index_arg
+//@  header: fn snippet_insert_body(string_arg: Value, insert_arg: Value, index_arg: i64) -> Result<Value, CallError>
+//@  resubst: s\.get::<(\w+)>\(name!\((\w+)\)\)\? => conv::<\1>(\2_arg.clone())?
+//@  resubst: s\.get\(name!\((\w+)\)\)\? => conv(\1_arg.clone())?
+//@  resubst: s\.get_map\(name!\((\w+)\), check::unitless_int\)\? => \1_arg
 //@end
 
 //@range file=rsass/src/sass/functions/string.rs fn=create_module after="def!(f, index(string, substring), |s| {" until="\n    });"
-//@  header: fn snippet_index(string_arg: String, substring_arg: String) -> Result<Value, crate::sass::CallError>
-//@  subst: s.get(name!(string))? => string_arg
-//@  subst: s.get::<String>(name!(substring))? => substring_arg
+//@  header: fn snippet_index_body(string_arg: Value, substring_arg: Value) -> Result<Value, CallError>
+//@  resubst: s\.get::<(\w+)>\(name!\((\w+)\)\)\? => conv::<\1>(\2_arg.clone())?
+//@  resubst: s\.get\(name!\((\w+)\)\)\? => conv(\1_arg.clone())?
 //@end
 
 //@range file=rsass/src/sass/functions/string.rs fn=create_module after="def!(f, length(string), |s| {" until="\n    });"
-//@  header: fn snippet_length(string_arg: String) -> Result<Value, crate::sass::CallError>
-//@  subst: s.get(name!(string))? => string_arg
+//@  header: fn snippet_length_body(string_arg: Value) -> Result<Value, CallError>
+//@  resubst: s\.get::<(\w+)>\(name!\((\w+)\)\)\? => conv::<\1>(\2_arg.clone())?
+//@  resubst: s\.get\(name!\((\w+)\)\)\? => conv(\1_arg.clone())?
 //@end
+
+fn snippet_slice(string_arg: CssString, start_arg: i64, end_arg: i64) -> Result<Value, CallError> {
+    snippet_slice_body(Value::Literal(string_arg), start_arg, end_arg)
+}
+fn snippet_insert(string_arg: CssString, insert_arg: String, index_arg: i64) -> Result<Value, CallError> {
+    // the inserted text is QUOTED: its quotes must not leak into the result
+    snippet_insert_body(Value::Literal(string_arg), lit(&insert_arg, Quotes::Single), index_arg)
+}
+fn snippet_index(string_arg: String, substring_arg: String) -> Result<Value, CallError> {
+    snippet_index_body(lit(&string_arg, Quotes::Double), lit(&substring_arg, Quotes::Double))
+}
+fn snippet_length(string_arg: String) -> Result<Value, CallError> {
+    snippet_length_body(lit(&string_arg, Quotes::Double))
+}
 
 fn text_of(r: Result<Value, crate::sass::CallError>) -> Option<(String, Quotes)> {
     match r {
